@@ -345,6 +345,29 @@ pub fn gen_call(rng: &mut Rng) -> Call {
     };
     let (cred_flavor, cred) = match rng.below(5) {
         0 | 1 => (0u32, Vec::new()),
+        2 if rng.chance(1, 2) => {
+            // AUTH_SYS body as RFC 5531 lays it out: stamp, machine name, uid, gid, gids - with a
+            // name length that is right, or an edge value the responder must not trust
+            let name: Vec<u8> = (0..rng.range(0, 16)).map(|_| rng.range(0x61, 0x7a) as u8).collect();
+            let mut b = rng.u32().to_be_bytes().to_vec();
+            let announced: u32 = match rng.below(6) {
+                0 => *rng.pick(&[0xffff_ffffu32, 0xffff_fffe, 0xffff_fffd, 0xffff_fffc, 0x8000_0000, 0x7fff_ffff, 255, 256]),
+                _ => name.len() as u32,
+            };
+            b.extend_from_slice(&announced.to_be_bytes());
+            b.extend_from_slice(&name);
+            while b.len() % 4 != 0 {
+                b.push(0);
+            }
+            b.extend_from_slice(&rng.u32().to_be_bytes());
+            b.extend_from_slice(&rng.u32().to_be_bytes());
+            let ng = rng.below(4) as u32;
+            b.extend_from_slice(&ng.to_be_bytes());
+            for _ in 0..ng {
+                b.extend_from_slice(&rng.u32().to_be_bytes());
+            }
+            (1, b)
+        }
         2 => {
             // AUTH_SYS-like body
             let n = (rng.range(5, 20) * 4) as usize;
